@@ -142,7 +142,7 @@ func (w *ABWorld) cleanup() {
 		w.lep.Close()
 	}
 	w.OnEmit = nil
-	w.Advance(5 * time.Second)
+	w.Advance(70 * time.Second) // half-open handshakes time out: the global SYN-RCVD counter returns to zero
 	for _, l := range w.Links {
 		l.Queue = nil
 	}
